@@ -27,8 +27,10 @@ enum GOpt {
     Assoc,
     /// a const parameter named like a type in scope: `<const Option: usize>`
     ConstLikeType,
+    /// `<'a, 'b, T>` with fields `&'a T` and `&'b T`: the same field type up to lifetimes
+    TwoLifetimes,
 }
-const GOPTS: [GOpt; 10] = [GOpt::None, GOpt::T, GOpt::LifetimeT, GOpt::ConstN, GOpt::DefaultT, GOpt::WhereT, GOpt::UnsizedTail, GOpt::Float, GOpt::Assoc, GOpt::ConstLikeType];
+const GOPTS: [GOpt; 11] = [GOpt::None, GOpt::T, GOpt::LifetimeT, GOpt::ConstN, GOpt::DefaultT, GOpt::WhereT, GOpt::UnsizedTail, GOpt::Float, GOpt::Assoc, GOpt::ConstLikeType, GOpt::TwoLifetimes];
 
 #[derive(Clone, Copy, PartialEq, Eq, Debug)]
 enum Naming {
@@ -80,7 +82,7 @@ fn applicable(c: &Case) -> Vec<&'static str> {
     match c.gopt {
         GOpt::UnsizedTail => v.retain(|t| !matches!(*t, "Copy" | "Clone" | "Default")),
         GOpt::Float => v.retain(|t| !matches!(*t, "Eq" | "Ord" | "Hash")),
-        GOpt::LifetimeT | GOpt::ConstN | GOpt::ConstLikeType => v.retain(|t| *t != "Default"),
+        GOpt::LifetimeT | GOpt::ConstN | GOpt::ConstLikeType | GOpt::TwoLifetimes => v.retain(|t| *t != "Default"),
         _ => {}
     }
     v
@@ -118,6 +120,10 @@ fn field_ty(c: &Case, vi: usize, fi: usize) -> (&'static str, Vec<&'static str>)
             0 => ("T::Item", vec!["0u8", "1u8"]),
             _ => ("Option<T::Item>", vec!["None", "Some(1u8)"]),
         },
+        GOpt::TwoLifetimes => match (vi + fi) % 2 {
+            0 => ("&'a T", vec!["&0u8", "&1u8"]),
+            _ => ("&'b T", vec!["&0u8", "&1u8"]),
+        },
         GOpt::ConstLikeType => match (vi + fi) % 2 {
             0 => ("[u8; Option]", vec!["[0u8, 1]", "[1u8, 0]"]),
             _ => ("u8", vec!["0u8", "1u8"]),
@@ -137,6 +143,7 @@ fn generics_of(g: GOpt) -> (&'static str, &'static str, &'static str) {
         GOpt::UnsizedTail => ("<T: ?Sized>", "", "<[u8]>"),
         GOpt::Assoc => ("<T: ::core::iter::IntoIterator>", "", "<[u8; 2]>"),
         GOpt::ConstLikeType => ("<const Option: usize>", "", "<2>"),
+        GOpt::TwoLifetimes => ("<'a, 'b, T>", "", "<'static, 'static, u8>"),
     }
 }
 
@@ -156,6 +163,7 @@ fn uses_all_params(c: &Case) -> bool {
         GOpt::UnsizedTail => !c.shape.is_enum && c.shape.variants[0].n >= 1,
         GOpt::Assoc => tys.iter().any(|t| t.contains("T::Item")),
         GOpt::ConstLikeType => tys.contains(&"[u8; Option]"),
+        GOpt::TwoLifetimes => tys.contains(&"&'a T") && tys.contains(&"&'b T"),
     }
 }
 
